@@ -37,7 +37,7 @@ open TfelVerif TfelVerif.Mandel TfelVerif.C23
 set_option linter.all false
 set_option maxHeartbeats 16000000
 set_option maxRecDepth 100000
-variable {K : Type} [Field K] (c c3 : K) (fn : Fns K)
+variable {K : Type} [Field K] [CharZero K] (c c3 : K) (fn : Fns K)
 
 /-- round trip `DS_DC → DS_DEGL → DS_DC`: converting back gives an operator with the same action (hence the same
 meaning) as the one started from, for every variation. -/
